@@ -502,41 +502,41 @@ fn output_selector(
         }
         Selector::CompositeSelector(selectors) => {
             ann_out += "{ \"type\": \"http://www.w3.org/ns/oa#Composite\", \"items\": [";
-            for (i, selector) in selectors.iter().enumerate() {
-                ann_out += &format!(
-                    "{}",
-                    &output_selector(selector, store, config, true, need_second_pass, second_pass)
-                );
-                if i != selectors.len() - 1 {
-                    ann_out += ",";
-                }
-            }
+            //(selectors that can not be expressed, on keys and data, give no output and take no comma)
+            let items: Vec<String> = selectors
+                .iter()
+                .map(|selector| {
+                    output_selector(selector, store, config, true, need_second_pass, second_pass)
+                })
+                .filter(|item| !item.is_empty())
+                .collect();
+            ann_out += &items.join(",");
             ann_out += " ]}";
         }
         Selector::MultiSelector(selectors) => {
             ann_out += "{ \"type\": \"http://www.w3.org/ns/oa#Independents\", \"items\": [";
-            for (i, selector) in selectors.iter().enumerate() {
-                ann_out += &format!(
-                    "{}",
-                    &output_selector(selector, store, config, true, need_second_pass, second_pass)
-                );
-                if i != selectors.len() - 1 {
-                    ann_out += ",";
-                }
-            }
+            //(selectors that can not be expressed, on keys and data, give no output and take no comma)
+            let items: Vec<String> = selectors
+                .iter()
+                .map(|selector| {
+                    output_selector(selector, store, config, true, need_second_pass, second_pass)
+                })
+                .filter(|item| !item.is_empty())
+                .collect();
+            ann_out += &items.join(",");
             ann_out += " ]}";
         }
         Selector::DirectionalSelector(selectors) => {
             ann_out += "{ \"type\": \"http://www.w3.org/ns/oa#List\", \"items\": [";
-            for (i, selector) in selectors.iter().enumerate() {
-                ann_out += &format!(
-                    "{}",
-                    &output_selector(selector, store, config, true, need_second_pass, second_pass)
-                );
-                if i != selectors.len() - 1 {
-                    ann_out += ",";
-                }
-            }
+            //(selectors that can not be expressed, on keys and data, give no output and take no comma)
+            let items: Vec<String> = selectors
+                .iter()
+                .map(|selector| {
+                    output_selector(selector, store, config, true, need_second_pass, second_pass)
+                })
+                .filter(|item| !item.is_empty())
+                .collect();
+            ann_out += &items.join(",");
             ann_out += " ]}";
         }
         Selector::DataKeySelector(..) | Selector::AnnotationDataSelector(..) => {
